@@ -100,6 +100,16 @@ func checkC03(c caseC03, rec *ev.Rec) *ev.Failure {
 				"stage", "compare", "origin", c.Src.Origin)
 		}
 	}
+	if len(b.Content) <= 2<<20 {
+		ways, outs, errs := decodeVia("xz", b.Stream, 4096)
+		for i, w := range ways {
+			if errs[i] != nil || !bytes.Equal(outs[i], b.Content) {
+				return ev.Fail(fmt.Sprintf("decoding a valid %s stream through %s gives (%d bytes, %v), Read gives the %d correct bytes", c.Src.Origin, w, len(outs[i]), errs[i], len(b.Content)),
+					"stage", "via", "way", w, "origin", c.Src.Origin)
+			}
+			rec.Class("read_via=" + w)
+		}
+	}
 	rec.Class("origin=" + c.Src.Origin)
 	if c.Prior != "" {
 		rec.Class("after_earlier_reader=" + c.Prior)
